@@ -416,7 +416,16 @@ def reused_grid_sequences(cx, rng, trees, M, boxes, nseq):
                             ls = [random_tree_levels(rng, len(lat[d])) for d in range(D)]
                         hist.append({'mode': mode, 'points': [sorted(t) for t in cur], 'levels': ls})
                         with impl.quiet(), impl.watchdog(120):
-                            g.set_grid([list(x) for x in xs], [list(l) for l in ls])
+                            if q % 2 == 1:
+                                # containers the caller keeps: the same list objects as in the previous call, rewritten in place
+                                if step == 0:
+                                    own_x, own_l = [[] for _ in range(D)], [[] for _ in range(D)]
+                                for d in range(D):
+                                    own_x[d][:] = list(xs[d])
+                                    own_l[d][:] = list(ls[d])
+                                g.set_grid(own_x, own_l)
+                            else:
+                                g.set_grid([list(x) for x in xs], [list(l) for l in ls])
                             f = make_function(a, b, N, 0)
                             g.integrate(f, [1] * D, a, b)
                             cg = ComponentGridInfo([1] * D, 1)
